@@ -61,6 +61,15 @@ def lattice():
                         for cp in ("INTEGER", "FLOAT"):
                             for ed in (True, False):
                                 yield cdesc(act, tdesc(wb, ws, wg, wd), cp, ed)
+    # BLOCKWISE weights (the block size is a free parameter; no policy table lists the granularity, so every point is refused unless
+    # the rule says skip_checks): a usable and an unusable block size
+    for act in (None, tdesc(8, False)):
+        for wb in (4, 8):
+            for ws in (True, False):
+                for block in (32, 0):
+                    for cp in ("INTEGER", "FLOAT"):
+                        for ed in (True, False):
+                            yield cdesc(act, tdesc(wb, ws, "BLOCKWISE", "INT", block), cp, ed)
 
 
 def enc_obj(v):
